@@ -59,7 +59,13 @@ struct Writer {
     n: u64,
     /// stage each source file in `cache.temp_dir()` (the documented workflow) instead of an application directory
     stage_in_temp_dir: bool,
+    /// the directory as handed to the library, when that is not the absolute path
+    spelled: Option<String>,
 }
+
+/// How the application names the cache directory (index 0 = absolute path, as everywhere else).
+/// "." and "" are used with the cache directory as working directory, the others from its parent.
+pub const SPELLINGS: [&str; 8] = ["<absolute>", "cache", ".", "", "./cache/", "cache//", "cache/.", "../cache"];
 
 impl Writer {
     fn new(sc: &Scratch, capacity: usize) -> Writer {
@@ -69,7 +75,25 @@ impl Writer {
             std::fs::create_dir_all(&dir).unwrap();
             std::fs::create_dir_all(&app).unwrap();
         });
-        Writer { cache: kismet_cache::plain::Cache::new(dir.clone(), capacity), dir, app, n: 0, stage_in_temp_dir: false }
+        Writer { cache: kismet_cache::plain::Cache::new(dir.clone(), capacity), dir, app, n: 0, stage_in_temp_dir: false, spelled: None }
+    }
+    /// As `new`, with the directory named relative to the working directory (which this changes:
+    /// the caller restores it; workers are single-threaded processes here).
+    fn new_spelled(sc: &Scratch, capacity: usize, spelling: usize) -> Writer {
+        let mut w = Writer::new(sc, capacity);
+        if spelling == 0 {
+            return w;
+        }
+        let name = SPELLINGS[spelling];
+        let cwd = match name {
+            "." | "" => w.dir.clone(),
+            "../cache" => w.app.clone(),
+            _ => w.dir.parent().unwrap().to_owned(),
+        };
+        std::env::set_current_dir(&cwd).unwrap();
+        w.cache = kismet_cache::plain::Cache::new(PathBuf::from(name), capacity);
+        w.spelled = Some(name.to_string());
+        w
     }
     /// One write; returns (result, whether maintenance ran, whether it ran before publication).
     fn write(&mut self, name: &str, set: bool) -> (Result<std::io::Result<()>, String>, bool, bool, Vec<Ev>) {
@@ -99,8 +123,14 @@ impl Writer {
         shim::passthrough(|| {
             let _ = std::fs::remove_file(&src);
         });
-        let dir = self.dir.to_string_lossy().into_owned();
-        let listed = trace.iter().position(|e| e.kind == Kind::Opendir && e.path.as_deref() == Some(dir.as_str()));
+        let dir = self.spelled.clone().unwrap_or_else(|| self.dir.to_string_lossy().into_owned());
+        // (the library may hand the listing a differently normalised spelling: compare what the paths resolve to)
+        let real = shim::passthrough(|| std::fs::canonicalize(&self.dir).ok());
+        let listed = trace.iter().position(|e| {
+            e.kind == Kind::Opendir
+                && (e.path.as_deref() == Some(dir.as_str())
+                    || (self.spelled.is_some() && e.path.as_deref().map(|p| shim::passthrough(|| std::fs::canonicalize(p).ok()) == real && real.is_some()).unwrap_or(false)))
+        });
         let published = trace.iter().position(|e| {
             matches!(e.kind, Kind::Rename | Kind::Link) && e.path2.as_ref().map(|p| p.starts_with(&dir) && !p.contains("/.kismet_temp/")).unwrap_or(false)
         });
@@ -133,6 +163,8 @@ pub enum Case {
     BrokenTemp { k: usize, writes: u32, draw: u64 },
     /// capacity, draw, number of writes
     Huge { k: usize, draw: u64, writes: u32 },
+    /// fresh-key writes (alternating set/put) into a directory the application names as SPELLINGS[spelling]
+    Spelled { k: usize, spelling: usize, draw: u64 },
     /// worst-case family at capacity k: fresh keys only, alternating (mode 0) or all put (mode 1)
     Family { k: usize, mode: u8, draw: u64 },
 }
@@ -145,6 +177,7 @@ impl Case {
             Case::Staged { k, seq, draw, first } => json!({"kind": "staged", "k": k.to_string(), "seq": seq, "draw": draw.to_string(), "first": first.iter().map(|d| d.to_string()).collect::<Vec<_>>()}),
             Case::BrokenTemp { k, writes, draw } => json!({"kind": "broken_temp", "k": k.to_string(), "writes": writes, "draw": draw.to_string()}),
             Case::Huge { k, draw, writes } => json!({"kind": "huge", "k": k.to_string(), "draw": draw.to_string(), "writes": writes}),
+            Case::Spelled { k, spelling, draw } => json!({"kind": "spelled", "k": k.to_string(), "spelling": spelling, "directory_named": SPELLINGS[*spelling], "draw": draw.to_string()}),
             Case::Family { k, mode, draw } => json!({"kind": "family", "k": k.to_string(), "mode": mode, "draw": draw.to_string()}),
         }
     }
@@ -161,7 +194,7 @@ impl Case {
                 first: v["first"].as_array().map(|a| a.iter().map(num).collect()).unwrap_or_default(),
             },
             "broken_temp" => Case::BrokenTemp { k, writes: v["writes"].as_u64().unwrap() as u32, draw: num(&v["draw"]) },
-            "broken_temp" => Case::BrokenTemp { k, writes: v["writes"].as_u64().unwrap() as u32, draw: num(&v["draw"]) },
+            "spelled" => Case::Spelled { k, spelling: v["spelling"].as_u64().unwrap() as usize, draw: num(&v["draw"]) },
             "huge" => Case::Huge { k, draw: num(&v["draw"]), writes: v["writes"].as_u64().unwrap() as u32 },
             _ => Case::Family { k, mode: v["mode"].as_u64().unwrap() as u8, draw: num(&v["draw"]) },
         }
@@ -290,6 +323,42 @@ pub fn run_case(case: &Case, rep: &mut Report) -> Vec<(String, String)> {
                 }
             }
         }
+        Case::Spelled { k, spelling, draw } => {
+            let p = period(*k as u128) as usize;
+            let mut w = Writer::new_spelled(&sc, *k, *spelling);
+            verif_hooks::script_trigger_draws(&[], Some(*draw));
+            verif_hooks::set_trigger_counter(0);
+            let mut since = 0usize;
+            for i in 0..(2 * (k + p) + 3) {
+                let (r, ran, before, trace) = w.write(&format!("key{}", i), i % 2 == 0);
+                rep.transitions += trace.len() as u64;
+                if !matches!(r, Ok(Ok(()))) {
+                    bad.push(("error".into(), format!("write {} failed: {:?}", i, r)));
+                    break;
+                }
+                if ran {
+                    since = 0;
+                    if !before {
+                        bad.push(("maintenance-after-insertion".into(), format!("write {}: listed after publication", i)));
+                    }
+                } else {
+                    since += 1;
+                    if since >= p {
+                        bad.push(("window-exceeded".into(), format!("capacity {}: {} consecutive writes without maintenance (window {})", k, since, p)));
+                        break;
+                    }
+                }
+                let n = w.file_count();
+                if n > k + p {
+                    bad.push((
+                        "too-many-files".into(),
+                        format!("capacity {}, directory named {:?}: {} files after write {} (bound {})", k, SPELLINGS[*spelling], n, i, k + p),
+                    ));
+                    break;
+                }
+            }
+            std::env::set_current_dir("/").unwrap();
+        }
         Case::Family { k, mode, draw } => {
             let p = period(*k as u128) as usize;
             let mut w = Writer::new(&sc, *k);
@@ -384,7 +453,8 @@ pub fn run(tier: Tier, shard: Shard, rep: &mut Report) {
          2(k+p)+2: after every write the file count is <= k + max(1, k/3) and no window of max(1, k/3) writes lacks maintenance; (3) \
          the fresh-key families again with every source file staged in cache.temp_dir() (the documented workflow: temp_dir() is \
          not a write and must not use up the window); fresh-key writes while .kismet_temp cannot be listed (it is a regular file): \
-         the firing writes report the error but the directory is still pruned on schedule; capacities 2^63, 3*2^62, usize::MAX-2..=usize::MAX: small draws fire at the first write, 2^64-1 with 1000 writes never \
+         the firing writes report the error but the directory is still pruned on schedule; fresh-key writes for capacities 0..=12 with the \
+         directory named in 8 ways (absolute, relative, '.', the empty path, './cache/', 'cache//', 'cache/.', '../cache'); capacities 2^63, 3*2^62, usize::MAX-2..=usize::MAX: small draws fire at the first write, 2^64-1 with 1000 writes never \
          panics. Every case is distinct.",
         kmax, smallk, seqlen, kmax
     );
@@ -463,6 +533,14 @@ pub fn run(tier: Tier, shard: Shard, rep: &mut Report) {
         for mode in 0..2u8 {
             for draw in [u64::MAX, (scale(k as u128) as u64).saturating_mul(period(k as u128) as u64 - 1).saturating_add(1)] {
                 take(Case::Family { k, mode, draw }, rep);
+            }
+        }
+    }
+    // the same directory under every spelling an application may use for it
+    for k in 0..=kmax.min(12) {
+        for spelling in 0..SPELLINGS.len() {
+            for draw in [u64::MAX, 1u64] {
+                take(Case::Spelled { k, spelling, draw }, rep);
             }
         }
     }
